@@ -24,8 +24,8 @@ NameOrder == Hdr.names
 
 INSTANCE Array
 
-VARIABLES l, fs, C, par, diag, clean, snap, dmg, ghost, sha, pviol, afterfix
-vars == <<l, fs, C, par, diag, clean, snap, dmg, ghost, sha, pviol, afterfix>>
+VARIABLES l, fs, C, par, diag, clean, snap, dmg, ghost, sha, pviol, afterfix, lks
+vars == <<l, fs, C, par, diag, clean, snap, dmg, ghost, sha, pviol, afterfix, lks>>
 
 (* ---- conversion of logged state ---- *)
 LoggedC(s) == [cf |-> s.cf, del |-> s.del, info |-> s.info]
@@ -187,6 +187,34 @@ C19_Wrong(c, f) == {y \in AllFiles(c) \X (1..64) :
                          /\ i <= Len(f[d][n].b)
                          /\ HashOf(f[d][n].b[i], BlkLen(c.cf[d][n].sz, i)) # c.cf[d][n].bl[i].h}
 
+(* C11: links and empty directories (present: lk, dr; recorded: clk, cdr) *)
+LinksOf(s) == IF "lk" \in DOMAIN s THEN [lk |-> s.lk, dr |-> s.dr, clk |-> s.clk, cdr |-> s.cdr]
+              ELSE [lk |-> [d \in D |-> <<>>], dr |-> [d \in D |-> <<>>], clk |-> [d \in D |-> <<>>], cdr |-> [d \in D |-> <<>>]]
+LinksSynced(k) == \A d \in D : k.lk[d] = k.clk[d]
+(* recorded links / empty directories that are missing or different on the disks (check and fix report and repair them) *)
+LinkErrors(k) == \E d \in D : (\E n \in DOMAIN k.clk[d] : n \notin DOMAIN k.lk[d] \/ k.lk[d][n] # k.clk[d][n])
+                              \/ (\E i \in 1..Len(k.cdr[d]) : k.cdr[d][i] \notin ToSet(k.dr[d]))
+LinkCounts(k) == [d \in D |-> [eq |-> Cardinality({n \in DOMAIN k.clk[d] : n \in DOMAIN k.lk[d] /\ k.lk[d][n] = k.clk[d][n]}),
+                               rm |-> Cardinality({n \in DOMAIN k.clk[d] : n \notin DOMAIN k.lk[d]}),
+                               chg |-> Cardinality({n \in DOMAIN k.clk[d] : n \in DOMAIN k.lk[d] /\ k.lk[d][n] # k.clk[d][n]})]]
+DirsSynced(k) == \A d \in D : ToSet(k.dr[d]) = ToSet(k.cdr[d])
+C11_AfterSync(newc, nf, k) ==
+    (IF ~NoDifference(newc, nf) THEN <<<<"C11", "successful-sync-left-file-differences", <<>>>>>> ELSE <<>>) \o
+    (IF ~LinksSynced(k) THEN <<<<"C11", "successful-sync-left-link-differences", <<k.lk, k.clk>>>>>> ELSE <<>>) \o
+    (IF ~DirsSynced(k) THEN <<<<"C11", "successful-sync-left-empty-dir-differences", <<k.dr, k.cdr>>>>>> ELSE <<>>) \o
+    (IF ParityInvalid(newc) THEN <<<<"C11", "successful-sync-left-unsynced-blocks", <<>>>>>> ELSE <<>>)
+C11_Diff(c, f, k, o) ==
+    LET differs == ~NoDifference(c, f) \/ ~LinksSynced(k) \/ ParityInvalid(c)
+    IN IF differs /\ o.rc # 2 THEN <<<<"C11", "diff-misses-a-difference", o>>>>
+       ELSE IF ~differs /\ o.rc # 0 THEN <<<<"C11", "diff-reports-without-difference", o>>>> ELSE <<>>
+C11_List(c, k, o) ==
+    LET lf == {<<o.files[i][1], o.files[i][2], o.files[i][3], o.files[i][4], o.files[i][5]>> : i \in 1..Len(o.files)}
+        ef == {<<x[1], x[2], c.cf[x[1]][x[2]].sz, c.cf[x[1]][x[2]].mt[1], c.cf[x[1]][x[2]].mt[2]>> : x \in AllFiles(c)}
+        ll == {<<o.links[i][1], o.links[i][2]>> : i \in 1..Len(o.links)}
+        el == UNION {{<<d, n>> : n \in DOMAIN k.clk[d]} : d \in D}
+    IN IF lf # ef THEN <<<<"C11", "list-files-differ-from-recorded", [listed |-> lf \ ef, missing |-> ef \ lf]>>>>
+       ELSE IF ll # el THEN <<<<"C11", "list-links-differ-from-recorded", [listed |-> ll, recorded |-> el]>>>> ELSE <<>>
+
 (* C12: frames, on byte-level digests of the three kinds of files *)
 C12_Frame(cmd, s) ==
     LET keepF == cmd \in {"Check", "Diff", "Scrub", "Sync"}
@@ -210,6 +238,7 @@ Init ==
     /\ sha = Hdr.state.sha
     /\ pviol = <<>>
     /\ afterfix = FALSE
+    /\ lks = LinksOf(Hdr.state)
 
 Ev == TraceLog[l]
 IsEvent(e) == l <= Len(TraceLog) /\ TraceLog[l].e = e
@@ -220,6 +249,7 @@ Follow(s, predpar) ==
     /\ C' = LoggedC(s)
     /\ par' = ParMerge(predpar, s)
     /\ sha' = s.sha
+    /\ lks' = LinksOf(s)
 
 GhostKeep(c) == [d \in D |-> [n \in DOMAIN c.cf[d] \cap DOMAIN ghost[d] |-> ghost[d][n]]]
 
@@ -241,7 +271,7 @@ SyncStep ==
     /\ IsEvent("Sync")
     /\ LET a == Ev.args
            fs1 == IF "fs1" \in DOMAIN Ev THEN Ev.fs1 ELSE fs
-           r == SyncResult(C, fs, fs1, par, a.now, a.opts, SrcsOf(a))
+           r == SyncResult(C, fs, fs1, par, a.now, [links |-> LinkCounts(lks)] @@ a.opts, SrcsOf(a))
            okC == r.C = LoggedC(Ev.state)
            okP == ParAgrees(r.par, Ev.state)
            okO == IF r.out.exit \in {"refused", "abort", "prehash-stop"} THEN Ev.out.exit = "stopped"
@@ -271,7 +301,9 @@ SyncStep ==
                       (IF ~dmg /\ "fs1" \notin DOMAIN Ev /\ Ev.out.exit = "ok" /\ fullsync /\ C19_Wrong(newc, Ev.state.fs) # {}
                        THEN <<<<"C19", "synced-block-hash-is-not-the-hash-of-the-data", C19_Wrong(newc, Ev.state.fs)>>>> ELSE <<>>) \o
                       (IF r.out.exit = "prehash-stop" /\ ~SamePar(Ev.state.sha.p, sha.p)
-                       THEN <<<<"C19", "prehash-mismatch-but-parity-written", <<>>>>>> ELSE <<>>)
+                       THEN <<<<"C19", "prehash-mismatch-but-parity-written", <<>>>>>> ELSE <<>>) \o
+                      (IF Ev.out.exit = "ok" /\ fullsync /\ "fs1" \notin DOMAIN Ev
+                       THEN C11_AfterSync(newc, Ev.state.fs, LinksOf(Ev.state)) ELSE <<>>)
           /\ afterfix' = FALSE
 
 (* a sync that was killed (SIGKILL at some system call): the content copy that loads is the old state, the
@@ -318,13 +350,16 @@ CheckStep ==
     /\ IsEvent("Check")
     /\ LET a == Ev.args
            r == CheckResultX(C, fs, par, PresentOf(a), a.audit, a.range, ExtOf(a))
-           okO == r.exit = Ev.out.exit /\ r.derr = PairSet(Ev.out.derr) /\ (a.audit \/ r.perr = PairSet(Ev.out.perr))
+           lerr == LinkErrors(lks)
+           xexit == IF r.exit = "ok" /\ lerr THEN (IF a.audit THEN "error" ELSE "recoverable") ELSE r.exit
+           okO == (xexit = Ev.out.exit \/ (lerr /\ Ev.out.exit = "unrecoverable"))
+                  /\ r.derr = PairSet(Ev.out.derr) /\ (a.audit \/ r.perr = PairSet(Ev.out.perr))
            okS == LoggedC(Ev.state) = C /\ Ev.state.fs = fs /\ ParAgrees(par, Ev.state)
        IN /\ Follow(Ev.state, par)
           /\ diag' = IF okO /\ okS THEN <<>> ELSE <<"Check", l, [okO |-> okO, okS |-> okS], r, Ev.out>>
           /\ pviol' = C12_Frame("Check", Ev.state) \o
                       (IF ~ParityInvalid(C) /\ NoDifference(C, fs) /\ (\A lv \in PresentOf(a) : Len(par[lv]) >= AllocatedMax(C))
-                          /\ a.range.bstart = 0 /\ a.range.bcount = 0
+                          /\ a.range.bstart = 0 /\ a.range.bcount = 0 /\ ~LinkErrors(lks)
                        THEN C04_Check(C, fs, par, a, Ev.out) ELSE <<>>) \o
                       (IF afterfix /\ Ev.out.rc # 0 THEN <<<<"C01", "check-after-fix-finds-errors", Ev.out>>>> ELSE <<>>)
           \* a full check without any error ends a damage episode
@@ -339,7 +374,7 @@ FixStep ==
            okF == SameFs(r.fs, Ev.state.fs)
            okP == ParAgrees(r.par, Ev.state)
            okC == LoggedC(Ev.state) = C
-           okO == /\ r.out.exit = Ev.out.exit
+           okO == /\ (r.out.exit = Ev.out.exit \/ (LinkErrors(lks) /\ r.out.exit \in {"ok", "recovered"} /\ Ev.out.exit \in {"recovered", "unrecoverable"}))
                   /\ r.out.unrec = PairSet(Ev.out.unrec)
                   /\ r.out.recovered = PairSet(Ev.out.recovered)
            c01 == clean /\ WithinBounds(C, fs, par)
@@ -427,12 +462,44 @@ ScrubStep ==
 
 DiffStep ==
     /\ IsEvent("Diff")
-    /\ LET r == DiffResult(C, fs, <<>>)
+    /\ LET r0 == DiffResult(C, fs, <<>>)
+           r == [exit |-> IF r0.exit = "equal" /\ LinksSynced(lks) THEN "equal" ELSE "diff"]
            okS == LoggedC(Ev.state) = C /\ Ev.state.fs = fs /\ ParAgrees(par, Ev.state)
        IN /\ Follow(Ev.state, par)
           /\ diag' = IF r.exit = Ev.out.exit /\ okS THEN <<>> ELSE <<"Diff", l, r, okS>>
-          /\ pviol' = C12_Frame("Diff", Ev.state)
+          /\ pviol' = C12_Frame("Diff", Ev.state) \o C11_Diff(C, fs, lks, Ev.out)
           /\ UNCHANGED <<clean, snap, dmg, ghost, afterfix>>
+
+(* touch (touch.c): every recorded file whose recorded sub-second stamp is zero and which can be opened gets a random
+   non-zero sub-second part, on the disk (seconds as they are on the disk) and in the content (seconds as recorded);
+   nothing else changes (C12). *)
+TouchStep ==
+    /\ IsEvent("Touch")
+    /\ LET newc == LoggedC(Ev.state)
+           nf == Ev.state.fs
+           okFiles == \A d \in D :
+                         /\ DOMAIN nf[d] = DOMAIN fs[d] /\ DOMAIN newc.cf[d] = DOMAIN C.cf[d]
+                         /\ \A n \in DOMAIN fs[d] :
+                               IF n \in DOMAIN C.cf[d] /\ C.cf[d][n].mt[2] = 0
+                               THEN /\ nf[d][n].b = fs[d][n].b /\ nf[d][n].sz = fs[d][n].sz
+                                    /\ nf[d][n].mt[1] = fs[d][n].mt[1] /\ nf[d][n].mt[2] > 0
+                                    /\ newc.cf[d][n] = [C.cf[d][n] EXCEPT !.mt = <<C.cf[d][n].mt[1], nf[d][n].mt[2]>>]
+                               ELSE nf[d][n] = fs[d][n]
+                         /\ \A n \in DOMAIN C.cf[d] : (n \notin DOMAIN fs[d] \/ C.cf[d][n].mt[2] # 0) => newc.cf[d][n] = C.cf[d][n]
+           okRest == newc.del = C.del /\ newc.info = C.info /\ ParAgrees(par, Ev.state)
+       IN /\ Follow(Ev.state, par)
+          /\ diag' = IF okFiles /\ okRest THEN <<>> ELSE <<"Touch", l, [okFiles |-> okFiles, okRest |-> okRest]>>
+          /\ pviol' = (IF Ev.state.sha.p # sha.p THEN <<<<"C12", "Touch-changed-parity", <<>>>>>> ELSE <<>>) \o
+                      (IF ~okFiles THEN <<<<"C12", "touch-changed-more-than-zero-subsecond-stamps", <<>>>>>> ELSE <<>>)
+          /\ clean' = FALSE
+          /\ UNCHANGED <<snap, dmg, ghost, afterfix>>
+
+ListStep ==
+    /\ IsEvent("List")
+    /\ Follow(Ev.state, par)
+    /\ diag' = IF LoggedC(Ev.state) = C /\ Ev.state.fs = fs THEN <<>> ELSE <<"List changed something", l>>
+    /\ pviol' = C12_Frame("Check", Ev.state) \o C11_List(C, lks, Ev.out)
+    /\ UNCHANGED <<clean, snap, dmg, ghost, afterfix>>
 
 (* a new execution in the same file (same D, NP) *)
 ResetStep ==
@@ -442,6 +509,7 @@ ResetStep ==
     /\ C' = LoggedC(Ev.state)
     /\ par' = LoggedPar(Ev.state, [lv \in Levels |-> <<>>])
     /\ sha' = Ev.state.sha
+    /\ lks' = LinksOf(Ev.state)
     /\ diag' = <<>>
     /\ clean' = FALSE
     /\ snap' = Ev.state.fs
@@ -450,7 +518,7 @@ ResetStep ==
     /\ pviol' = <<>>
     /\ afterfix' = FALSE
 
-Next == EnvStep \/ RefusedStep \/ SyncStep \/ SyncKilledStep \/ FixKilledStep \/ FaultStep \/ CheckStep \/ FixStep \/ ScrubStep \/ DiffStep \/ ResetStep
+Next == EnvStep \/ RefusedStep \/ TouchStep \/ ListStep \/ SyncStep \/ SyncKilledStep \/ FixKilledStep \/ FaultStep \/ CheckStep \/ FixStep \/ ScrubStep \/ DiffStep \/ ResetStep
 Spec == Init /\ [][Next]_vars
 
 (* ---- what TLC checks ---- *)
